@@ -15,6 +15,10 @@ def U(name, entry, enforce=None, replace=(), reach=(), **kw):
     return d
 
 
+HMAC = "Sha256::hmac(ptr_const_unsigned_char|unsigned_long_int|ptr_const_unsigned_char|unsigned_long_int|ptr_unsigned_char)"
+
+QUICK_GLUE = {(0, 0), (55, 27), (56, 1), (119, 59)}
+
 UNITS = [
     U("layout", "h_layout"),
     U("spec_anchor", "h_spec_anchor", reach=["spec_anchor.return"], cbmc=["--unwind", "130"], srcs=["harness/sha256_anchor.c"], no_native=True),
@@ -38,8 +42,35 @@ UNITS = [
                 "loop contract and is not registered in the write set; the check concerns the assignment digest++ to the "
                 "local itself -- the writes THROUGH it (*digest) are separate obligations and are discharged")],
       split=[r"loop_invariant", r"loop_decreases", r"precondition", r"postcondition"]),
+    U("hmac", "h_hmac", None, replace=[(UPDATE, "c_update_abstract"), (FINALIZE, "c_finalize_abstract")],
+      reach=["hmac.long_key", "hmac.block_key", "hmac.short_key"], funcs=["Sha256::hmac"],
+      srcs=SRCS + ["@TREE@/src/Memory.cpp"]),
+] + [
+    U("hash_glue.len%d.split%d" % (n, sp), "h_hash_glue", None, replace=[(TRANSFORM, "c_Transform")], reach=["hash_glue.return"],
+      defs=["NV_LEN=%d" % n, "NV_SP=%d" % sp], kind="bounded",
+      bound="message length == %d bytes, chunked %d + %d, content symbolic" % (n, sp, n - sp),
+      funcs=["Sha256::update", "Sha256::finalize"], tier="quick" if (n, sp) in QUICK_GLUE else "thorough")
+    for n in (0, 1, 55, 56, 63, 64, 65, 100, 119) for sp in sorted(set([0, 1 if n else 0, n // 2, n]))
 ]
-TRUSTED = ["cbmc 6.11.0 / goto-instrument DFCC / minisat", "goto-cc C++ front end translation of src/Crypto/Sha256.cpp",
-           "specs/fips180.h as rendering of FIPS 180-4 (anchored on two standard test vectors in unit spec_anchor)"]
-ASSUMPTIONS = []
-EXPLANATION = ""
+TRUSTED = [
+    "cbmc 6.11.0 / goto-instrument DFCC contract + loop-contract instrumentation / CaDiCaL",
+    "goto-cc C++ front end translation of src/Crypto/Sha256.cpp and include/nstd/Crypto/Sha256.hpp (compat rule R5 in hmac only)",
+    "specs/fips180.h as rendering of FIPS 180-4 (anchored on the standard's test vectors in unit spec_anchor)",
+    "Memory::copy/zero = CBMC's memcpy/memset models (hmac key preparation)",
+]
+ASSUMPTIONS = [
+    "unsigned 32/64-bit wrap-around is the intended arithmetic (FIPS 180-4 addition modulo 2^32, length modulo 2^64)",
+    "update(data, n) for arbitrary n: proved are memory safety, frame, termination and count bookkeeping (loop contract) and, separately, "
+    "that absorbing ONE byte equals the FIPS absorb step for every object state; that n bytes behave as n single-byte steps "
+    "(same loop body) and hence chunking independence is the induction over the loop, argued on paper, and cross-checked by the bounded hash_glue units",
+    "callers of the compression function (WriteByteBlock/update/finalize units) treat its result as an uninterpreted function value "
+    "(sound for every compression function); the link to FIPS 180-4 is unit Transform",
+    "hmac(): update/finalize are replaced by the abstract-hash interface contract (append / hash-and-reset); that the real object "
+    "implements this interface is what the other units establish per call, the composition over calls is by induction on paper",
+    "DFCC registers no write-set entry for finalize's local 'digest' declared after the contract loop: 4 obligations on the local variable itself are excluded (listed under unit_exclusions)",
+    "sizes <= 0x7ffffff0 where buffers are allocated by the harness",
+]
+EXPLANATION = ("Sha256::Private::Transform is proved equal to the FIPS 180-4 compression function for all 2^768 (state, block) pairs by "
+               "loop contracts that follow ghost tables of the spec's working variables round by round; WriteByteBlock, update, finalize, "
+               "reset and hmac are proved against contracts stated with the spec's padding/parsing functions, callee contracts replacing "
+               "callee bodies.")
